@@ -1,1 +1,143 @@
-// harness for rs/anda_cognitive_nexus/src/governance/mod.rs (mounted by #[cfg(kani)] hook)
+// @module governance::verif_kani
+// Kani harnesses for rs/anda_cognitive_nexus/src/governance/mod.rs — property C19, rank lattices:
+// classification::join is the max under rank, authority::meet the min; unknown labels resolve
+// toward refusal on both.
+use super::*;
+
+fn class_label(i: u8, unk: &'static str) -> &'static str {
+    match i % 7 {
+        0 => "",
+        1 => classification::PUBLIC,
+        2 => classification::INTERNAL,
+        3 => classification::PRIVATE,
+        4 => classification::SENSITIVE,
+        5 => classification::SECRET,
+        _ => unk,
+    }
+}
+fn authority_label(i: u8, unk: &'static str) -> &'static str {
+    match i % 6 {
+        0 => "",
+        1 => authority::DESCRIPTIVE,
+        2 => authority::ADVISORY,
+        3 => authority::BEHAVIORAL,
+        4 => authority::EXECUTABLE,
+        _ => unk,
+    }
+}
+
+/// a label that is none of the defined ones: N symbolic bytes, assumed different from every
+/// defined label of that length (so every case / spelling variant is inside the bound)
+fn unknown<const N: usize>(buf: &mut [u8; N], known: &[&str]) {
+    let mut i = 0;
+    while i < N {
+        let b: u8 = kani::any();
+        kani::assume(b >= 0x20 && b < 0x7f);
+        buf[i] = b;
+        i += 1;
+    }
+    let mut k = 0;
+    while k < known.len() {
+        if known[k].len() == N {
+            let mut same = true;
+            let mut j = 0;
+            while j < N {
+                if known[k].as_bytes()[j] != buf[j] {
+                    same = false;
+                }
+                j += 1;
+            }
+            kani::assume(!same);
+        }
+        k += 1;
+    }
+}
+
+const CLASSES: [&str; 5] = [classification::PUBLIC, classification::INTERNAL, classification::PRIVATE, classification::SENSITIVE, classification::SECRET];
+const AUTHS: [&str; 4] = [authority::DESCRIPTIVE, authority::ADVISORY, authority::BEHAVIORAL, authority::EXECUTABLE];
+
+// @check id=C19 tier=quick cap=600 role=classification_rank_ladder
+// @fns governance::classification::rank
+// @bound every defined label (concrete), "" and EVERY other printable string of length 1, 2, 6, 7 and 8 (symbolic bytes; covers all case/spelling variants of public, secret, private, internal)
+#[kani::proof]
+#[kani::unwind(10)]
+fn c19_classification_rank_ladder_and_unknown_labels() {
+    use classification::rank;
+    assert!(rank(classification::PUBLIC) < rank(classification::INTERNAL)
+        && rank(classification::INTERNAL) < rank(classification::PRIVATE)
+        && rank(classification::PRIVATE) < rank(classification::SENSITIVE)
+        && rank(classification::SENSITIVE) < rank(classification::SECRET), "documented ladder");
+    assert!(rank("") == rank(classification::DEFAULT) && rank("") > rank(classification::PUBLIC), "an absent label is the default, never public");
+    let (mut u1, mut u2, mut u6, mut u7, mut u8_) = ([0u8; 1], [0u8; 2], [0u8; 6], [0u8; 7], [0u8; 8]);
+    unknown(&mut u1, &CLASSES);
+    unknown(&mut u2, &CLASSES);
+    unknown(&mut u6, &CLASSES);
+    unknown(&mut u7, &CLASSES);
+    unknown(&mut u8_, &CLASSES);
+    let top = rank(classification::SECRET);
+    assert!(rank(unsafe { std::str::from_utf8_unchecked(&u1) }) > top, "unknown 1-byte label ranks above secret");
+    assert!(rank(unsafe { std::str::from_utf8_unchecked(&u2) }) > top, "unknown 2-byte label ranks above secret");
+    assert!(rank(unsafe { std::str::from_utf8_unchecked(&u6) }) > top, "unknown 6-byte label ranks above secret");
+    assert!(rank(unsafe { std::str::from_utf8_unchecked(&u7) }) > top, "unknown 7-byte label ranks above secret");
+    assert!(rank(unsafe { std::str::from_utf8_unchecked(&u8_) }) > top, "unknown 8-byte label ranks above secret");
+    kani::cover!(u6[0] == b'P' && u6[1] == b'u' && u6[2] == b'b' && u6[3] == b'l' && u6[4] == b'i' && u6[5] == b'c', "'Public' is inside the bound");
+    kani::cover!(u6[0] == b's' && u6[5] == b't', "a near miss of 'secret'");
+}
+
+// @check id=C19 tier=quick cap=600 role=classification_join_is_max
+// @fns governance::classification::rank, governance::classification::join
+// @bound a, b each a symbolic choice among the five defined labels, "" and an unknown label; the lattice laws (commutative, associative, idempotent, monotone in rank) follow from rank(join(a,b)) = max(rank a, rank b)
+#[kani::proof]
+#[kani::unwind(12)]
+fn c19_classification_join_is_max() {
+    use classification::{join, rank};
+    let a = class_label(kani::any(), "Public");
+    let b = class_label(kani::any(), "zz");
+    let (ra, rb) = (rank(a), rank(b));
+    let j = join(a, b);
+    let rj = rank(j);
+    assert!(rj == if ra >= rb { ra } else { rb }, "rank(join(a,b)) == max(rank a, rank b)");
+    assert!(std::ptr::eq(j, a) || std::ptr::eq(j, b), "join returns one of its arguments");
+    kani::cover!(ra < rb, "a below b");
+    kani::cover!(ra == u8::MAX && rb < 5, "unknown joined with known");
+}
+
+// @check id=C19 tier=quick cap=600 role=authority_rank_ladder
+// @fns governance::authority::rank
+// @bound every defined class (concrete), "" and every other printable string of length 1, 2, 8 and 10
+#[kani::proof]
+#[kani::unwind(12)]
+fn c19_authority_rank_ladder_and_unknown_labels() {
+    use authority::rank;
+    assert!(rank(authority::DESCRIPTIVE) < rank(authority::ADVISORY)
+        && rank(authority::ADVISORY) < rank(authority::BEHAVIORAL)
+        && rank(authority::BEHAVIORAL) < rank(authority::EXECUTABLE), "documented ladder");
+    assert!(rank("") == 0 && rank(authority::DEFAULT) == 0, "absent = default = lowest");
+    let (mut u1, mut u2, mut u8_, mut u10) = ([0u8; 1], [0u8; 2], [0u8; 8], [0u8; 10]);
+    unknown(&mut u1, &AUTHS);
+    unknown(&mut u2, &AUTHS);
+    unknown(&mut u8_, &AUTHS);
+    unknown(&mut u10, &AUTHS);
+    assert!(rank(unsafe { std::str::from_utf8_unchecked(&u1) }) == 0, "unknown class is the lowest rung (1 byte)");
+    assert!(rank(unsafe { std::str::from_utf8_unchecked(&u2) }) == 0, "unknown class is the lowest rung (2 bytes)");
+    assert!(rank(unsafe { std::str::from_utf8_unchecked(&u8_) }) == 0, "unknown class is the lowest rung (8 bytes)");
+    assert!(rank(unsafe { std::str::from_utf8_unchecked(&u10) }) == 0, "unknown class is the lowest rung (10 bytes)");
+    kani::cover!(u10[0] == b'E' && u10[9] == b'e', "'Executable'-like variant inside the bound");
+}
+
+// @check id=C19 tier=quick cap=600 role=authority_meet_is_min
+// @fns governance::authority::rank, governance::authority::meet
+// @bound a, b each a symbolic choice among the four defined classes, "" and an unknown label
+#[kani::proof]
+#[kani::unwind(14)]
+fn c19_authority_meet_is_min() {
+    use authority::{meet, rank};
+    let a = authority_label(kani::any(), "Executable");
+    let b = authority_label(kani::any(), "zz");
+    let (ra, rb) = (rank(a), rank(b));
+    let m = meet(a, b);
+    assert!(rank(m) == if ra <= rb { ra } else { rb }, "rank(meet(a,b)) == min(rank a, rank b)");
+    assert!(std::ptr::eq(m, a) || std::ptr::eq(m, b), "meet returns one of its arguments");
+    kani::cover!(ra > rb, "a above b");
+    kani::cover!(rank(m) == 3, "executable survives only with executable");
+}
